@@ -7,6 +7,7 @@ import os
 import sys
 import threading
 import time
+from typing import Any
 
 from harness import runproc_funcs as F
 
@@ -32,6 +33,18 @@ async def amain(spec: dict) -> dict:
         except Exception as e:  # noqa
             res['signal_error'] = f'{type(e).__name__}: {e}'
     st = asyncio.ensure_future(send()) if sig else None
+    awaiters: list = []
+    stop_spawning = [False]
+
+    async def one_awaiter() -> Any:
+        return await running
+
+    async def spawn_awaiters() -> None:
+        # a fresh awaiter of the same handle at every iteration of the event loop, before, while and after the process exits
+        while not stop_spawning[0] and len(awaiters) < 20000:
+            awaiters.append(asyncio.ensure_future(one_awaiter()))
+            await asyncio.sleep(0)
+    sp_task = asyncio.ensure_future(spawn_awaiters()) if spec.get('many_awaiters') else None
     try:
         ex = await asyncio.wait_for(running, timeout=spec.get('timeout', 20))
         res['awaited'] = True
@@ -47,6 +60,18 @@ async def amain(spec: dict) -> dict:
     except BaseException as e:  # noqa
         res['awaited'] = False
         res['raised_out'] = f'{type(e).__name__}: {e}'
+    if sp_task is not None:
+        for _ in range(10):
+            await asyncio.sleep(0)
+        stop_spawning[0] = True
+        await sp_task
+        done, pending = await asyncio.wait(awaiters, timeout=10) if awaiters else (set(), set())
+        errs = [f'{type(t.exception()).__name__}: {t.exception()}' for t in done if t.exception() is not None]
+        res['awaiters'] = len(awaiters)
+        res['awaiter_errors'] = errs[:3]
+        res['awaiters_pending'] = len(pending)
+        for t in pending:
+            t.cancel()
     if st is not None:
         st.cancel()
     await asyncio.sleep(0.05)
